@@ -80,7 +80,8 @@ def chain_work_check(seed):
 
 
 def run_one(seed, preset=None, tier="quick", want_case=False):
-    r = run_single(ID, seed, preset, want_case, doc_knobs=DOC_KNOBS, schema_knobs={"max_objects": 4, "subscription_pct": 30})
+    from simv.gen.document import mirror_post
+    r = run_single(ID, seed, preset, want_case, doc_knobs=DOC_KNOBS, schema_knobs={"max_objects": 4, "subscription_pct": 30}, doc_post=mirror_post)
     if r.get("early"):
         return strip_private(r)
     plan, case = r["_plan"], r["_case"]
